@@ -29,14 +29,20 @@ let dec_buf_model f a =
   let s = bytes_of_hex (List.nth a 0) in
   match List.nth a 1 with
   | "null" -> pr_outcome (fun (ret, _) -> "ret=" ^ string_of_z ret) (f s false O)
-  | os -> pr_outcome pr_buf (f s true (nat_of_int (int_of_string os)))
+  | os ->
+      (* output sizes beyond any decoded length are clamped for the model (sizes are Peano numbers there):
+         decoded length <= input length < cap, so the comparison `decoded > output_size` is unaffected *)
+      let o = BZ.of_string os in
+      let cap = 4096 + 2 * List.length s in
+      let o = if BZ.gt o (BZ.of_int cap) then cap else BZ.to_int o in
+      pr_outcome pr_buf (f s true (nat_of_int o))
 
 let dec_buf_spec valid dspec dlen a =
   let s = bytes_of_hex (List.nth a 0) in
   match List.nth a 1 with
   | "null" -> (match dlen s with Some n -> "OK ret=" ^ string_of_nat n | None -> "OK ret=-1")
   | os ->
-      let osize = int_of_string os in
+      let osize = (let o = BZ.of_string os in let cap = 4096 + 2 * List.length s in if BZ.gt o (BZ.of_int cap) then cap else BZ.to_int o) in
       if valid s then
         (match dspec s with
          | Some r when List.length r <= osize -> "OK " ^ pr_buf (z_of_int (List.length r), r)
